@@ -49,7 +49,14 @@ def _fields(tc):
 
 
 def gen_chunk(args):
-  """Drive the implementation over frames n0..n0+length-1 at one rate; return trace records."""
+  """Drive the implementation over frames n0..n0+length-1 at one rate; return trace records (one window in five in the
+  caller's alternative process context, core.AltContext)."""
+  from ..core import AltContext, alt_for
+  with AltContext(1 if alt_for(("chunk",) + tuple(args)) else 0):
+    return _gen_chunk(args)
+
+
+def _gen_chunk(args):
   num, den, n0, length = args
   from ttconv.time_code import SmpteTimeCode
   rate = Fraction(num, den)
@@ -225,8 +232,13 @@ def ms_records(rng, tier):
   recs = []
   rid = [0]
 
+  from ..core import AltContext, alt_for
+
   def obs(x):
-    ct = ClockTime.from_seconds(x)
+    # (one conversion in five in the caller's alternative process context - see core.AltContext: among other things the
+    # thread's decimal context is not the default one)
+    with AltContext(1 if alt_for(("ms", repr(x))) else 0):
+      ct = ClockTime.from_seconds(x)
     h, m, s, ms = ct.get_hours(), ct.get_minutes(), ct.get_seconds(), ct.get_milliseconds()
     try:
       rt = 1 if ClockTime.parse(str(ct)) == ct else 0
